@@ -124,6 +124,21 @@ def build_corpus(ctx):
     return traces
 
 
+def corpus_or_hung(ctx):
+    """the scripted corpus runs in this process and normally takes seconds: every script is finite and the scripted
+    transport raises TIMEOUT / EOF at its end, so a call of the expect family that does not come back is the violation
+    (backstop: the whole corpus gets a wall-clock budget; None = it was used up)"""
+    from ..budget import Hung, wall_budget
+    try:
+        with wall_budget(600 if ctx.quick() else 3600):
+            return build_corpus(ctx)
+    except Hung as e:
+        ctx.fail('%s:call-did-not-return' % ctx.pid, {'corpus': 'scripted'},
+                 detail={'what': 'the scripted corpus (finite scripts, the transport raises TIMEOUT / EOF at their end) did not finish: %s' % e},
+                 signature={})
+        return None
+
+
 def model_check(ctx):
     cfg = 'MCExpect_quick.cfg' if ctx.quick() else 'MCExpect_thorough.cfg'
     res = tlc.run('MCExpect', cfg, ctx.work, workers=16, timeout=3000, outname='mc.out')
@@ -208,7 +223,10 @@ def run(ctx):
         # until replayed; report as machinery problem so that it gets looked at
         raise tlc.TLCError('MCExpect violates %s - replay needed, see %s' % (mc['violated'], mc['out']))
     t0 = time.time()
-    traces = build_corpus(ctx)
+    traces = corpus_or_hung(ctx)
+    if traces is None:
+        status, nviol, nknown = common.conclude(ctx)
+        return status
     gen_s = time.time() - t0
     # distinct event sequences only
     seen, uniq = {}, []
@@ -241,15 +259,20 @@ def run(ctx):
             r['id'] = 'real-%d' % r['id']
         rv, rst = tracecheck.validate(routs, 'ExpectTrace', ctx.work, constants=TRACE_CONSTS, procs=8, tag='realtr')
         rcnt = Counter(v[0] for v in rv.values())
-        nbase, nrem = CT.corpus.counts
+        nbase, nrem, npoll = CT.corpus.counts
         real_note = ('%d histories on real transports (%s; fd and pty transports alternately with select and poll; bytes and unicode): '
                      '%d with the default read size, 2 calls at the end of the stream; %d with a read size that leaves a remainder of '
                      'the last chunk behind when the stream ends (maxread 1, 2, 3, 5 on 3-7 characters; the default 2000 on %d), '
-                     '3 calls at the end of the stream; validated: %s' % (
-                         len(routs), ', '.join(CT.TRANSPORTS), nbase, nrem, CT.LONG, ', '.join('%s x%d' % kv for kv in sorted(rcnt.items()))))
+                     '3 calls at the end of the stream; %d polling calls (timeout=0, twice) on a live peer that is silent / has text readable / '
+                     'sends it later; every call bounded (%d reads, %d s): one that does not come back is a violation; validated: %s' % (
+                         len(routs), ', '.join(CT.TRANSPORTS), nbase, nrem, CT.LONG, npoll, CT.MAX_READS, CT.WALL_BUDGET,
+                         ', '.join('%s x%d' % kv for kv in sorted(rcnt.items()))))
         ctx.note(real_note)
 
         def own_clauses(r, rv_, rst_):
+            if 'hung' in r:
+                # stopped by the harness: the call of the expect family did not come back
+                return ['C04:timeout-0-call-did-not-return' if r['hung']['timeout'] == 0 else 'C04:call-did-not-return'], len(r['ev'])
             v_, at_ = rv_[r['id']]
             if v_.startswith('harness:'):
                 raise tlc.TLCError('harness-level verdict on real transport: %s %s' % (v_, r['meta']))
@@ -265,7 +288,8 @@ def run(ctx):
                     again.append((ctx.work, '%s-again%d' % (r['id'], rep), m['transport'], m['unicode'], m['ending'], m['entry'], m['pats'],
                                   m['stream'], m.get('opts', {})))
             with Pool(12) as pool:
-                routs2 = pool.map(CT.run_case, again, chunksize=2)
+                from ..budget import pmap
+                routs2 = pmap(pool, CT.run_case, again, chunksize=2, timeout=1500)
             errs = [r for r in routs2 if 'error' in r]
             if errs:
                 raise tlc.TLCError('real-transport re-run crashed: %s\n%s' % (errs[0]['meta'], errs[0]['error']))
@@ -347,6 +371,11 @@ def replay(ctx):
         if st == 1:
             print('VIOLATION property=%s replay=%s' % (ctx.pid, ctx.replay))
         return st
+    if d['case'].get('corpus') == 'scripted':
+        if corpus_or_hung(ctx) is None:
+            print('VIOLATION property=%s replay=%s' % (ctx.pid, ctx.replay))
+            return 1
+        return 0
     meta = d['case']['meta']
     ev = rerun(meta)
     v, _ = tracecheck.validate([{'id': 'replay', 'ev': ev}], 'ExpectTrace', ctx.work, constants=TRACE_CONSTS, procs=1,
